@@ -279,7 +279,8 @@ class Language(object):
                     stack.append(None)
             elif token == ":":
                 previous = stack[-1]
-                assert isinstance(previous, Expr)
+                if not isinstance(previous, Expr):
+                    raise ParseError("Type annotation without an expression")
                 t = self.parse_type(tokens)
 
                 # Anonymous sources are immediately treated as the given type
@@ -291,7 +292,7 @@ class Language(object):
                     if unify or isinstance(previous, Source):
                         previous.type.unify(t, subtype=True)
                 except TypingError as e:
-                    if previous_token.isnumeric():
+                    if previous_token.isdecimal():
                         input = int(previous_token)
                     else:
                         input = None
@@ -303,7 +304,7 @@ class Language(object):
                 current: Optional[Expr]
                 if token == "-":
                     current = Source()
-                elif token.isnumeric():
+                elif token.isdecimal():
                     input = int(token)
                     try:
                         current = args_map[input - 1]
@@ -405,7 +406,8 @@ class Language(object):
                 stack.append(TypeVariable())
             elif token == "*":
                 t1 = stack.pop()
-                assert isinstance(t1, TypeInstance)
+                if not isinstance(t1, TypeInstance):
+                    raise ParseError("Product type without a left-hand side")
                 stack.append(Product)
                 stack.append(t1)
             else:
